@@ -55,6 +55,11 @@ fn registry() -> Vec<Prop> {
         prop!("C13", c13, native),
         prop!("C14", c14),
         prop!("C15", c15, native),
+        prop!("C16", c16, native),
+        prop!("C17", c17, native),
+        prop!("C18", c18, native),
+        prop!("C19", c19, native),
+        prop!("C20", c20, native),
         // REGISTRY-END
     ]
 }
